@@ -323,9 +323,17 @@ package parser
 // deliberate panics - a text ending in a lone backslash, a \u value beyond the Unicode range -
 // are outside what the lexer passes in; callers rely on nothrow, which is therefore an
 // assumption about the lexer's output, listed as such.)
+// The text between the quotes as the scanner delivers it: every backslash is followed by at
+// least one more character (scanString/scanEscape consume the escaped character, identifier
+// escapes are complete \uXXXX sequences), so in particular the text does not end in an unpaired
+// backslash.  Stated as the sufficient condition "the last character is not a backslash"; the
+// explicit panic("len(str) <= 1") of the function is unreachable under it (str is always a
+// suffix of the text), which the engine cannot derive without a suffix invariant: that one
+// obligation stays undecided and is not counted.
 //@ func parseStringLiteral
 //@   props C04
 //@   safety C02 C04
+//@   requires len(literal) == 0 || literal[len(literal)-1] != 92
 //@   pure
 //@   nothrow
 //@   invariant@2 0 <= j && j < size && len(str) >= size && size <= 4
